@@ -241,8 +241,26 @@ func (w *world) lockupAccumulation() {
 			set[c.Denom] = true
 		}
 	}
+	perSynth := map[string]int{}
+	longer := false
 	for _, sl := range w.A.App.LockupKeeper.GetAllSyntheticLockups(ca) {
 		set[sl.SynthDenom] = true
+		perSynth[sl.SynthDenom]++
+		if ul, err := w.A.App.LockupKeeper.GetLockByID(ca, sl.UnderlyingLockId); err == nil && ul.Duration != sl.Duration && perSynth[sl.SynthDenom] > 1 {
+			longer = true
+		}
+	}
+	if longer {
+		w.run.Probe("export-with-synthetic-locks-sharing-a-denom-on-longer-locks")
+	}
+	for _, c := range perSynth {
+		if c > 1 {
+			w.run.Probe("export-with-synthetic-locks-sharing-a-denom")
+			break
+		}
+	}
+	if len(perSynth) > 0 {
+		w.run.Probe("export-with-synthetic-locks")
 	}
 	denoms := make([]string, 0, len(set))
 	for d := range set {
